@@ -36,10 +36,10 @@ def gen_example(rnd, idx):
     return {"family": "examples", "id": "ex-" + name, "text": "\n".join(texts), "texts": texts, "planted": False, "example": name}
 
 
-GEN = {"sync": plangen.gen_sync, "cyc": plangen.gen_cyc, "sx": plangen.gen_sx, "sv": plangen.gen_sv, "rr": plangen.gen_rr, "tl": plangen.gen_tl, "rules": plangen.gen_rules, "examples": gen_example}
+GEN = {"task": plangen.gen_task, "sync": plangen.gen_sync, "cyc": plangen.gen_cyc, "sx": plangen.gen_sx, "sv": plangen.gen_sv, "rr": plangen.gen_rr, "tl": plangen.gen_tl, "rules": plangen.gen_rules, "examples": gen_example}
 # which families each property runs (the others' failures are counted, not reported)
-FAMILIES = {"C01": ["sv", "rr", "rules", "sx"], "C02": ["sv", "rr", "rules", "sx", "cyc", "sync"], "C03": ["rules", "sv", "cyc", "examples"], "C04": ["sv", "sx", "examples"], "C05": ["rr", "sx", "examples"],
-            "C06": ["tl", "sv", "rr", "sx", "sync", "examples"]}
+FAMILIES = {"C01": ["sv", "rr", "rules", "sx", "sync"], "C02": ["sv", "rr", "rules", "sx", "cyc", "sync", "task"], "C03": ["rules", "sv", "cyc", "task", "examples"], "C04": ["sv", "sx", "sync", "task", "examples"], "C05": ["rr", "sx", "task", "examples"],
+            "C06": ["tl", "sv", "rr", "sx", "sync", "task", "examples"]}
 
 
 def fr(v):
